@@ -15,7 +15,10 @@ Tokens == {ScriptO, ScriptC, StyleO, StyleC, CommO, CommC, <<LT>>, <<GT>>, <<97>
 RECURSIVE TokSeqs(_)
 TokSeqs(n) == IF n = 0 THEN {<<>>} ELSE TokSeqs(n - 1) \cup {s \o t : s \in TokSeqs(n - 1), t \in Tokens}
 \* entity-level inputs: whole and near entities
-EntTokens == Entities \cup {<<AMP>>, <<AMP, 97, 109, 112>>, <<AMP, 108, 116, SEMI, SEMI>>, <<AMP, HASH, 51, 57>>, <<LT>>, <<97>>, <<SEMI>>}
+\* code points whose low byte is one of the five special ASCII characters (0x22 0x26 0x27 0x3C 0x3E): U+013C, U+2026, U+043E, U+0127,
+\* U+0122, and U+0126 followed by "amp;" - they are ordinary text
+WideTokens == {<<316>>, <<8230>>, <<1086>>, <<295>>, <<290>>, <<294, 97, 109, 112, 59>>, <<1084, 1086, 1083>>}
+EntTokens == WideTokens \cup Entities \cup {<<AMP>>, <<AMP, 97, 109, 112>>, <<AMP, 108, 116, SEMI, SEMI>>, <<AMP, HASH, 51, 57>>, <<LT>>, <<97>>, <<SEMI>>}
 RECURSIVE EntSeqs(_)
 EntSeqs(n) == IF n = 0 THEN {<<>>} ELSE EntSeqs(n - 1) \cup {s \o t : s \in EntSeqs(n - 1), t \in EntTokens}
 
